@@ -58,13 +58,30 @@ def main():
         rc, out = sh("cd /repo && /venv/bin/python -m pytest -q -p no:cacheprovider --timeout=900 2>&1 | tail -2")
         res["baseline_tail"] = out.strip().split("\n")[-1]
         res["checks"] = {}
+        if checks == ["all"]:
+            checks = [c["property_id"] for c in json.load(open(os.path.join(VERIF, "MANIFEST.json")))["checks"]]
+            sh("cd %s && harness/check.py C15 --tier quick" % VERIF, timeout=7200)       # build once (generated facts may have changed)
+            from concurrent.futures import ThreadPoolExecutor
+            def one(c):
+                t0 = time.time()
+                rc, out = sh("cd %s && VERIF_SEED=%s harness/check.py %s --tier %s --no-build" % (VERIF, a.seed, c, a.tier), timeout=7200)
+                return c, rc, out, time.time() - t0
+            with ThreadPoolExecutor(12) as ex:
+                results = list(ex.map(one, checks))
+        else:
+            results = None
         for c in checks:
             t0 = time.time()
-            rc, out = sh("cd %s && VERIF_SEED=%s harness/check.py %s --tier %s" % (VERIF, a.seed, c, a.tier), timeout=7200)
+            if results is not None:
+                _, rc, out, dt = [r for r in results if r[0] == c][0]
+                t0 = time.time() - dt
+            else:
+                rc, out = sh("cd %s && VERIF_SEED=%s harness/check.py %s --tier %s" % (VERIF, a.seed, c, a.tier), timeout=7200)
             viol = [l for l in out.split("\n") if l.startswith("VIOLATION")]
             detail = [l.strip() for l in out.split("\n") if l.startswith("  [")][:4]
             res["checks"][c] = {"exit": rc, "violation_line": viol[0] if viol else None, "first_findings": detail, "wall_s": round(time.time() - t0, 1)}
-            print("%s on %s: exit %d %s" % (c, a.sid, rc, viol[0] if viol else ""))
+            if results is None or rc != 0:
+                print("%s on %s: exit %d %s" % (c, a.sid, rc, viol[0] if viol else ""))
             for l in detail[:3]:
                 print("   " + l[:260])
     finally:
@@ -73,6 +90,8 @@ def main():
         if out.strip():
             print("WARNING: /repo not clean after undo:\n" + out)
     meta.setdefault("verif_runs", []).append(res)
+    if meta.get("kind") == "harmless":
+        meta["alarms"] = sorted({c for r in meta["verif_runs"] for c, v in r.get("checks", {}).items() if v["exit"] != 0})
     meta["caught_by"] = sorted({c for r in meta["verif_runs"] for c, v in r.get("checks", {}).items() if v["exit"] == 1 and v["violation_line"]})
     json.dump(meta, open(os.path.join(d, "meta.json"), "w"), indent=1)
     print(json.dumps({k: v for k, v in res.items() if k != "checks"}))
